@@ -766,6 +766,107 @@ builtin_add!(MaxAddI32, MaxAdd, i32, true, "MaxAdd<i32>", i32::MIN as i64, |a, b
 builtin_add!(SumAddI32, SumAdd, i32, true, "SumAdd<i32>", 0, |a, b| a + b, Grows, true);
 
 // ------------------------------------------------------------------------------------------------
+// Min / Max over an element type whose order looks at a key only (an "argmin" element: key + payload). Equal keys are
+// the rule here (keys 0..=3), so which of several equal elements a node holds is visible: the built-in merge keeps the
+// right operand on a tie, the left-to-right merge of a range is therefore its *last* extremal element.
+
+#[derive(Clone, Copy, Debug, Default)]
+pub struct Keyed {
+    pub key: i32,
+    pub id: u32,
+}
+
+impl PartialEq for Keyed {
+    fn eq(&self, o: &Self) -> bool {
+        self.key == o.key
+    }
+}
+
+impl PartialOrd for Keyed {
+    fn partial_cmp(&self, o: &Self) -> Option<std::cmp::Ordering> {
+        self.key.partial_cmp(&o.key)
+    }
+}
+
+impl rlib_num_traits::MinMax for Keyed {
+    const MIN: Self = Keyed { key: i32::MIN, id: u32::MAX };
+    const MAX: Self = Keyed { key: i32::MAX, id: u32::MAX };
+}
+
+macro_rules! builtin_keyed {
+    ($alg:ident, $item:ident, $name:expr, $emptykey:expr, $takes_new:expr, $pred:ident) => {
+        #[derive(Debug, Clone)]
+        pub struct $alg;
+        impl Algebra for $alg {
+            type Item = $item<Keyed>;
+            type Mod = ();
+            type Elem = (i32, u32);
+            type Obs = (i32, u32);
+            type Pred = NumPred;
+            fn name() -> String {
+                $name.into()
+            }
+            fn has_mod() -> bool {
+                false
+            }
+            fn gen_elem(rng: &mut Rng, _nonneg: bool) -> (i32, u32) {
+                (rng.below(4) as i32, rng.next_u64() as u32 >> 1)
+            }
+            fn gen_mod(_rng: &mut Rng, _nonneg: bool) {}
+            fn leaf(e: &(i32, u32)) -> Self::Item {
+                if e.1 % 2 == 0 {
+                    $item::new(Keyed { key: e.0, id: e.1 })
+                } else {
+                    $item::from(Keyed { key: e.0, id: e.1 })
+                }
+            }
+            fn apply(_e: &mut (i32, u32), _m: &()) {}
+            fn empty() -> (i32, u32) {
+                ($emptykey, u32::MAX)
+            }
+            fn extend(o: &mut (i32, u32), e: &(i32, u32)) {
+                // merge(o, e): the right operand unless the left one is strictly better
+                let f: fn(i32, i32) -> bool = $takes_new;
+                if f(o.0, e.0) {
+                    *o = *e;
+                }
+            }
+            fn extend_left(o: &mut (i32, u32), e: &(i32, u32)) {
+                // merge(e, o): the left operand only when it is strictly better
+                let f: fn(i32, i32) -> bool = $takes_new;
+                if !f(e.0, o.0) {
+                    *o = *e;
+                }
+            }
+            fn observe(i: &Self::Item) -> (i32, u32) {
+                (i.v.key, i.v.id)
+            }
+            fn pending(_i: &Self::Item) -> bool {
+                false
+            }
+            fn gen_pred(rng: &mut Rng, shadow: &[(i32, u32)]) -> NumPred {
+                match rng.below(8) {
+                    0 => NumPred::Always(true),
+                    1 => NumPred::Always(false),
+                    _ => {
+                        let l = rng.usize_below(shadow.len());
+                        let r = rng.range_usize(l, shadow.len() - 1);
+                        let t = Self::fold(&shadow[l..=r]).0 as i64 + rng.range_i64(-1, 1);
+                        NumPred::$pred(t)
+                    }
+                }
+            }
+            fn eval(p: &NumPred, o: &(i32, u32)) -> bool {
+                eval_num(p, o.0 as i64)
+            }
+        }
+    };
+}
+
+builtin_keyed!(MinKeyed, Min, "Min<key+payload>", i32::MAX, |old, new| !(old < new), Le);
+builtin_keyed!(MaxKeyed, Max, "Max<key+payload>", i32::MIN, |old, new| !(old > new), Ge);
+
+// ------------------------------------------------------------------------------------------------
 // the pair combinator: any two algebras over the same elements and modifiers, side by side
 
 #[derive(Clone, Debug)]
@@ -1255,5 +1356,173 @@ impl<A: Algebra, const PAD: usize, const REENT: bool> Algebra for Wrapped<A, PAD
     }
     fn at(e: &mut A::Elem, i: usize) {
         A::at(e, i)
+    }
+}
+
+// ------------------------------------------------------------------------------------------------
+// TouchCount: every element counts the range modifications that covered it (whatever their value: adding 0 counts). The
+// pending state of a node is the number of modifications its children have not seen - it never cancels, unlike a sum of
+// additions. Side by side with a range-add item in a Combinator the two halves hold "nothing pending" at different times.
+
+#[derive(Clone, Debug, Default)]
+pub struct TcItem {
+    pub sum: u64,
+    pub len: u32,
+    pub pend: u32,
+}
+
+impl SegtreeItem<i64> for TcItem {
+    fn merge(l: &Self, r: &Self) -> Self {
+        TcItem { sum: l.sum + r.sum, len: l.len + r.len, pend: 0 }
+    }
+    fn modify(&mut self, _m: &i64) {
+        self.sum += self.len as u64;
+        self.pend += 1;
+    }
+    fn push(&mut self, l: &mut Self, r: &mut Self) {
+        if self.pend != 0 {
+            l.sum += self.pend as u64 * l.len as u64;
+            l.pend += self.pend;
+            r.sum += self.pend as u64 * r.len as u64;
+            r.pend += self.pend;
+            self.pend = 0;
+        }
+    }
+}
+
+#[derive(Debug, Clone)]
+pub struct TouchCount;
+
+impl Algebra for TouchCount {
+    type Item = TcItem;
+    type Mod = i64;
+    type Elem = u32;
+    type Obs = (u64, u64);
+    type Pred = NumPred;
+    fn name() -> String {
+        "TouchCount".into()
+    }
+    fn gen_elem(rng: &mut Rng, _nonneg: bool) -> u32 {
+        rng.below(3) as u32
+    }
+    fn gen_mod(rng: &mut Rng, nonneg: bool) -> i64 {
+        gen_add(rng, nonneg, false)
+    }
+    fn leaf(e: &u32) -> TcItem {
+        TcItem { sum: *e as u64, len: 1, pend: 0 }
+    }
+    fn apply(e: &mut u32, _m: &i64) {
+        *e += 1;
+    }
+    fn empty() -> (u64, u64) {
+        (0, 0)
+    }
+    fn extend(o: &mut (u64, u64), e: &u32) {
+        o.0 += *e as u64;
+        o.1 += 1;
+    }
+    fn extend_left(o: &mut (u64, u64), e: &u32) {
+        Self::extend(o, e)
+    }
+    fn observe(i: &TcItem) -> (u64, u64) {
+        (i.sum, i.len as u64)
+    }
+    fn pending(i: &TcItem) -> bool {
+        i.pend != 0
+    }
+    fn gen_pred(rng: &mut Rng, shadow: &[u32]) -> NumPred {
+        match rng.below(8) {
+            0 => NumPred::Always(true),
+            1 => NumPred::Always(false),
+            _ => {
+                let l = rng.usize_below(shadow.len());
+                let r = rng.range_usize(l, shadow.len() - 1);
+                NumPred::Ge(Self::fold(&shadow[l..=r]).0 as i64 + rng.range_i64(-1, 1))
+            }
+        }
+    }
+    fn eval(p: &NumPred, o: &(u64, u64)) -> bool {
+        eval_num(p, o.0 as i64)
+    }
+    fn obs_len(o: &(u64, u64)) -> Option<usize> {
+        Some(o.1 as usize)
+    }
+}
+
+// ------------------------------------------------------------------------------------------------
+// the pair combinator over *different* element types: elements are pairs, both halves see every modifier
+
+#[derive(Debug, Clone)]
+pub struct ProdAlg<A, B>(std::marker::PhantomData<(A, B)>);
+
+impl<A, B> Algebra for ProdAlg<A, B>
+where
+    A: Algebra,
+    B: Algebra<Mod = A::Mod>,
+{
+    type Item = Combinator<A::Item, B::Item>;
+    type Mod = A::Mod;
+    type Elem = (A::Elem, B::Elem);
+    type Obs = (A::Obs, B::Obs);
+    type Pred = Either<A::Pred, B::Pred>;
+    fn name() -> String {
+        format!("Combinator<{} x {}>", A::name(), B::name())
+    }
+    fn has_mod() -> bool {
+        A::has_mod()
+    }
+    fn max_n() -> usize {
+        A::max_n().min(B::max_n())
+    }
+    fn gen_elem(rng: &mut Rng, nonneg: bool) -> Self::Elem {
+        (A::gen_elem(rng, nonneg), B::gen_elem(rng, nonneg))
+    }
+    fn gen_mod(rng: &mut Rng, nonneg: bool) -> A::Mod {
+        A::gen_mod(rng, nonneg)
+    }
+    fn leaf(e: &Self::Elem) -> Self::Item {
+        Combinator(A::leaf(&e.0), B::leaf(&e.1))
+    }
+    fn apply(e: &mut Self::Elem, m: &A::Mod) {
+        A::apply(&mut e.0, m);
+        B::apply(&mut e.1, m);
+    }
+    fn empty() -> Self::Obs {
+        (A::empty(), B::empty())
+    }
+    fn extend(o: &mut Self::Obs, e: &Self::Elem) {
+        A::extend(&mut o.0, &e.0);
+        B::extend(&mut o.1, &e.1);
+    }
+    fn extend_left(o: &mut Self::Obs, e: &Self::Elem) {
+        A::extend_left(&mut o.0, &e.0);
+        B::extend_left(&mut o.1, &e.1);
+    }
+    fn observe(i: &Self::Item) -> Self::Obs {
+        (A::observe(&i.0), B::observe(&i.1))
+    }
+    fn pending(i: &Self::Item) -> bool {
+        A::pending(&i.0) || B::pending(&i.1)
+    }
+    fn gen_pred(rng: &mut Rng, shadow: &[Self::Elem]) -> Self::Pred {
+        if rng.chance(1, 2) {
+            let s: Vec<A::Elem> = shadow.iter().map(|x| x.0.clone()).collect();
+            Either::L(A::gen_pred(rng, &s))
+        } else {
+            let s: Vec<B::Elem> = shadow.iter().map(|x| x.1.clone()).collect();
+            Either::R(B::gen_pred(rng, &s))
+        }
+    }
+    fn eval(p: &Self::Pred, o: &Self::Obs) -> bool {
+        match p {
+            Either::L(p) => A::eval(p, &o.0),
+            Either::R(p) => B::eval(p, &o.1),
+        }
+    }
+    fn search_needs_nonneg() -> bool {
+        A::search_needs_nonneg() || B::search_needs_nonneg()
+    }
+    fn obs_len(o: &Self::Obs) -> Option<usize> {
+        A::obs_len(&o.0).or_else(|| B::obs_len(&o.1))
     }
 }
